@@ -124,6 +124,7 @@ def check(ctx) -> None:
     r135(ctx)
     r136(ctx)
     r137(ctx)
+    r138(ctx)
 
 
 def r131(ctx, f, table) -> None:
@@ -501,3 +502,53 @@ def r137(ctx) -> None:
                     f'requirements — with a metadata-only left operand the '
                     f'right operand is evaluated against content that was '
                     f'never loaded (maildir: OR SEEN BODY x misses)')
+
+
+def r138(ctx) -> None:
+    R = ctx.rule('R13.8', 'a search key and its negation are different keys',
+                 2)
+    sk = ctx.proj.cls('pymap/parsing/specials/searchkey.py', 'SearchKey')
+    init = sk.own_method('__init__')
+    if init is None:
+        raise AnchorError('SearchKey.__init__ vanished')
+    fields = {t.attr for s_ in walk_local(init.node)
+              if isinstance(s_, (ast.Assign, ast.AnnAssign))
+              for t in targets_of(s_)
+              if isinstance(t, ast.Attribute) and is_name(t.value, 'self')
+              and not t.attr.startswith('_')}
+    props = {}
+    for nm, fs in sk.methods.items():
+        for g in fs:
+            rs = [r for r in walk_local(g.node) if isinstance(r, ast.Return)]
+            if len(rs) == 1 and isinstance(rs[0].value, ast.Attribute) and \
+                    is_name(rs[0].value.value, 'self'):
+                props[nm] = rs[0].value.attr      # value -> key
+
+    def reads(g) -> set[str]:
+        out = set()
+        for x in walk_local(g.node):
+            if isinstance(x, ast.Attribute) and isinstance(x.value, ast.Name) \
+                    and x.value.id in ('self', 'other'):
+                out.add(props.get(x.attr, x.attr))
+        return out
+    h = sk.own_method('__hash__')
+    if h is None:
+        raise AnchorError('SearchKey.__hash__ vanished')
+    hr = reads(h)
+    R.check(fields <= hr, h, h.node,
+            f'SearchKey.__hash__ covers {sorted(fields)}',
+            f'__hash__ ignores {sorted(fields - hr)}: SearchCommand keeps '
+            f'the top-level keys in a frozenset, so `SEEN NOT SEEN` '
+            f'collapses into one key (returns messages instead of nothing) '
+            f'while `(SEEN NOT SEEN)` — a list — stays right')
+    for nm in ('__eq__', '__ne__'):
+        g = sk.own_method(nm)
+        if g is None:
+            continue
+        via_hash = any(call_name(c) == 'hash' for c in calls_in(g.node)) or \
+            any(call_name(c) in ('__eq__', '__hash__')
+                for c in calls_in(g.node))
+        R.check(via_hash or fields <= reads(g), g, g.node,
+                f'SearchKey.{nm} covers {sorted(fields)}',
+                f'{nm} ignores {sorted(fields - reads(g))}: X and NOT X '
+                f'compare equal')
